@@ -1847,7 +1847,7 @@ func (patternSelf RegexPatternDef) Matches(value interface{}) bool {
 		return false
 	}
 
-	matches, err := regexp.MatchString(patternSelf.pattern, (value).(string))
+	matches, err := regexp.MatchString(patternSelf.pattern, reflect.ValueOf(value).String())
 	if err == nil && matches {
 		return true
 	}
